@@ -256,6 +256,25 @@ func (e *seqEngine) eval(v ssa.Value, p *pathCtx) seqVal {
 					return seqVal{AliasOf: at.String(), Dropped: []atom{at}}
 				}
 				return seqVal{Atoms: []atom{at}, AliasOf: at.String()}
+			case *ssa.FreeVar:
+				// a variable captured from the enclosing function that is assigned exactly once there
+				if b := freeVarBinding(a); b != nil {
+					if cell, ok := b.(*ssa.Alloc); ok {
+						if sv := singleStore(cell); sv != nil {
+							if ld, ok := sv.(*ssa.UnOp); ok && ld.Op == token.MUL {
+								if fa, ok := ld.X.(*ssa.FieldAddr); ok {
+									fv := fieldVar(fa.X.Type(), fa.Field)
+									at := atom{Kind: 'F', Field: fv, Base: canon(fa.X), Val: sv}
+									return seqVal{Atoms: []atom{at}, AliasOf: at.String()}
+								}
+							}
+							if prm, ok := sv.(*ssa.Parameter); ok {
+								return seqVal{Atoms: []atom{{Kind: 'P', Name: prm.Name(), Val: prm}}, AliasOf: "P(" + prm.Name() + ")"}
+							}
+						}
+					}
+				}
+				return seqVal{Unknown: "captured variable that is reassigned"}
 			case *ssa.Alloc:
 				// local variable cell: last store on this path before the load
 				if st := e.lastStoreOnPath(a, x, p); st != nil {
